@@ -1,40 +1,62 @@
 """Registry fragment of the `store` family (C12, C13): spec/Store.tla,
-harness/cmd/store, checks/c12.py, checks/c13.py, checks/storelib.py."""
+harness/cmd/store, harness/cmd/storejob, checks/c12.py, checks/c13.py, checks/storelib.py."""
 ENGINES = [
     dict(name="Store", path="spec/Store.tla", serves_properties=["C12", "C13"],
          kind_free_text="TLA+ spec of the job checkpoint store (snapshots.Store: create / savepoint / operator and runner acks with any id and "
                         "sender, asynchronous publication = Write, Remove, notification; crash + LoadCheckpoint over the listing order of "
                         "pathSegment names; RetainOnly on the operators' DKVs) at API-call and storage-operation granularity; TLC exhaustive + "
                         "transition-cover and simulated behaviours replayed on the real snapshots.Store over a gated real LocalDirectory "
-                        "(harness/cmd/store)"),
+                        "(harness/cmd/store); Burst mode (back-to-back acknowledgements) for deep overlap of publications; RpcMode = the "
+                        "job -> operator requests as separate steps, replayed on the real jobs.Job (harness/cmd/storejob); deviation switches "
+                        "Pre_AckUnlocked / Pre_ForwardConcurrent / Pre_NotifyUnordered generate the schedules only a store or job without the "
+                        "respective serialisation admits"),
 ]
 CHECKS = {
     "C12": dict(
         engine="Store",
         technique="TLA+/TLC model checking of Store.tla; TLC-generated call strings (transition cover of the bounded graph + simulation) replayed "
-                  "call by call on the real snapshots.Store with a gated StorageLocation, published files decoded with snapshotpb",
+                  "call by call on the real snapshots.Store with a gated StorageLocation, published files decoded with snapshotpb; concurrent "
+                  "entry of calls from several goroutines with the harness-owned splitter's Checkpoint() gated",
         text="TLC exhaustively checks OnlyWhenAllAcked, PublishedWhole, AtMostOnePending and IdsStrictlyIncrease over every sequence of "
              "create / savepoint / operator-ack / runner-ack calls (duplicates, late and future ids, foreign senders), asynchronous publication "
              "steps and store restarts within the bounds; a transition cover for the 1x1 assembly and thousands of simulated call strings for "
              "1-3 operators x 1-3 runners are executed on the real Store; after every call the harness compares whether the store decided to "
              "publish, the decoded snapshot file (one entry per operator, per runner the split states of exactly one acknowledgement, splitter "
-             "state), the ids handed out and CurrentCheckpoint with what the property demands.",
+             "state), the ids handed out and CurrentCheckpoint with what the property demands. Concurrent entry: the spec with "
+             "Pre_AckUnlocked (an acknowledgement releases the lock between its bookkeeping and finishSnapshot) yields every call that could "
+             "enter while the completing acknowledgement is still inside finishSnapshot (repeated, late, foreign acknowledgements, create, a "
+             "publication step); each such schedule is forced onto the real store from separate goroutines while the splitter's "
+             "Checkpoint() is held: the store must block the call (serialise) or refuse it, and no checkpoint id may be published twice "
+             "(PublishedOnce).",
         note="Bounds: <= 3 operators, <= 3 runners, <= 4 ids per behaviour, acks name the last id handed out -1/0/+1, <= 2 restarts; exhaustive "
              "call strings to depth 9-11, whole state graph for 2-3 ids. Ids handed out before a crash but never published are not durable "
              "anywhere and may be handed out again (checked: every new id exceeds every id of the same incarnation and every id ever published). "
-             "Operator acks returning nil for unknown/duplicate operators and error texts are not part of the property."),
+             "Operator acks returning nil for unknown/duplicate operators and error texts are not part of the property. Concurrent entry is "
+             "explored only at the one point a harness-owned interface gives without a hook (inside splitter.Checkpoint()), for the 1x1 "
+             "assembly (thorough: 2 operators, resumed store); 'serialised by the code' is concluded from a 60 ms quiet period, so a racing "
+             "call that needs longer to reach the store on a loaded machine is missed, never misjudged."),
     "C13": dict(
         engine="Store",
         technique="TLA+/TLC model checking of Store.tla; TLC-generated publication schedules and crash points forced onto the real snapshots.Store "
                   "through a gated real LocalDirectory and the snapshots.notify gate; real LoadCheckpoint on materialised directory states; "
-                  "retained-sets delivered to real dkv.DBs",
+                  "retained-sets delivered to real dkv.DBs; deep overlap (Burst) against an unbuffered channel whose subscriber receives only "
+                  "when the model delivers; the job -> operator boundary on the real jobs.Job (in-process cluster) with held "
+                  "UpdateRetainedCheckpoints requests",
         text="TLC exhaustively checks LoadsNewest, NewestSurvives, RetainNamesNewest, OperatorsKeepNewest and CurrentIsNewest over every order of "
              "the write / delete / notify steps of up to 3 overlapping publications and a crash after any storage operation; the listing order "
              "of the base64url file names is computed in the spec and cross-checked against the real LocalDirectory.List at every restart. A "
              "transition cover and simulated schedules are replayed on the real Store (restart = new Store + LoadCheckpoint on the same real "
              "directory), every delivered retained-set is applied to a real dkv.DB per operator, and every set of 1-3 snapshot ids in windows "
-             "around base64 character-class boundaries (1..24, 50.., 4088.., 65524.., 2^18, 2^24) is materialised and loaded.",
-        note="Bounds: <= 3 publications in flight, <= 3 restarts, ids < 2^28 in the spec's name order; the operator takes its DKV checkpoint at "
+             "around base64 character-class boundaries (1..24, 50.., 4088.., 65524.., 2^18, 2^24) is materialised and loaded. Deep overlap: "
+             "with back-to-back acknowledgements (Burst) 4-5 checkpoints are in flight at once, their writes land in every order, and the "
+             "transition cover is replayed (a) against an unbuffered retained-checkpoints channel whose subscriber is busy until the model "
+             "delivers and (b) with the notification goroutines released in every order (the code must serialise). The job -> operator "
+             "boundary (RpcMode: Forward / OpHandle) is replayed on the real jobs.Job of harness/cluster: UpdateRetainedCheckpoints requests "
+             "are held at the operator adapter, and the schedules of a job that forwards concurrently (Pre_ForwardConcurrent) must not be "
+             "reachable: per operator the retained-sets handled never go back to an older checkpoint, no request names a checkpoint whose "
+             "snapshot is not written, and at rest the last one names the newest completed checkpoint.",
+        note="Bounds: <= 3 publications in flight with the full acknowledgement alphabet (<= 4 with back-to-back acknowledgements), real jobs.Job arm: "
+             "1-2 workers, <= 4 checkpoints, <= 2 publications in flight, no crashes; <= 3 restarts, ids < 2^28 in the spec's name order; the operator takes its DKV checkpoint at "
              "its first counted ack; DKV state is observed through its checkpoints document only (file retention inside the DKV is C09); "
              "savepoint artifact copies are not interleaved with crashes (C14). Notification goroutine order is controlled through the verif "
              "hook snapshots.notify; 'serialised by the code' is concluded from a 60 ms quiet period."),
